@@ -122,6 +122,9 @@ func vfClockHook(f func()) {}
 // vfHavocLoads: under the executor the next n atomic loads of *p return an arbitrary value each (no native effect).
 func vfHavocLoads(p *uint32, n int) {}
 
+// vfLockHook: under the executor f runs once right before the next Lock of m (no native effect).
+func vfLockHook(m *sync.Mutex, f func()) {}
+
 // vfMutexHeld: under the executor, whether the running thread holds m (natively unknown: harnesses that use it have no native replay).
 func vfMutexHeld(m *sync.Mutex) bool { return true }
 
